@@ -63,7 +63,7 @@ def gen_cases(ctx, rng: random.Random, tier: str):
         spec["group"] = group
         specs.append(spec)
 
-    n_rand = 1 if tier == "quick" else 12
+    n_rand = 1 if tier == "quick" else 30
     for cls in ctx.names:
         units = ctx.units_of(cls)
         for ui, unit in enumerate(units):
@@ -82,7 +82,7 @@ def gen_cases(ctx, rng: random.Random, tier: str):
             add("si", {"k": "get", "g": "si", "x": x})
             add("reexpress", {"k": "reexpress", "x": qspec(cls, unit, rng.choice([0.1, 3.7, rnd_float(rng)]))})
             if tier != "quick":
-                for v in (0.0, 1.0, 1000.0):
+                for v in FIXED_VALUES + [rnd_float(rng), rnd_float(rng)]:
                     add("reexpress", {"k": "reexpress", "x": qspec(cls, unit, v)})
             # two quantities of the class in different units: comparisons, + - and the unary operators
             other = rng.choice(units)
